@@ -159,7 +159,32 @@ impl Case {
         let promises: Vec<Option<u64>> = (0..cfg.m).map(|j| pick_promise(pc, j, values[j], rng)).collect();
         let seed = if seeded && cfg.m == 1 { Some(rand_scalar(rng)) } else { None };
         let ctx = Context::random(rng);
-        Case::build(cfg, values, promises, seed, ctx, rng)
+        let mut case = Case::build(cfg, values, promises, seed, ctx, rng);
+        // degenerate but valid data inside aggregates: an identity commitment (value 0, all-zero mask - the natural
+        // padding member) at some position, or the same commitment at two positions
+        if cfg.m >= 2 {
+            match rng.next_u32() % 8 {
+                0 => case.plant_identity((rng.next_u32() as usize) % cfg.m),
+                1 => {
+                    let a = (rng.next_u32() as usize) % cfg.m;
+                    let b = (a + 1 + (rng.next_u32() as usize) % (cfg.m - 1)) % cfg.m;
+                    case.values[b] = case.values[a];
+                    case.blindings[b] = case.blindings[a].clone();
+                    case.promises[b] = pick_promise(pc, b, case.values[b], rng);
+                    case.commitments[b] = case.commitments[a].clone();
+                },
+                _ => {},
+            }
+        }
+        case
+    }
+
+    /// Make position j the opening (0; 0,...,0): its commitment is the identity
+    pub fn plant_identity(&mut self, j: usize) {
+        self.values[j] = 0;
+        self.blindings[j] = vec![Scalar::ZERO; self.cfg.ext];
+        self.promises[j] = if self.promises[j].is_some() { Some(0) } else { None };
+        self.commitments[j] = P::identity();
     }
 
     pub fn params(&self) -> Params {
